@@ -186,6 +186,11 @@ def obligations(tier):
     obs.append(Ob("C02.d[loop,W=2,T=2,R=2,K=2,stop-only]", "props.c01:h_loop", p,
                   bounds=dict(W=2, T=2, R=2, K=2, decisions="CONTINUE/STOP", polls="<=8"), goals=("end", "complete"),
                   split=(("k_p2_t0", (0, 1, 2)), ("k_p2_t1", (0, 1, 2)), ("dec_3", (0, 1))), budget_s=2400))
+    # the simulator backend inside the real loop: per run the delivered levels are consecutive, start at 1 or right after the
+    # pause level, nothing of an earlier run is delivered after a resume (C01.b harness)
+    for ob in c01.sim_obligations(tier):
+        ob.name = ob.name.replace("C01.b", "C02.e")
+        obs.append(ob)
     return obs
 
 
